@@ -23,6 +23,15 @@ for name in sorted(os.listdir(os.path.join(VERIF, "seeded"))):
     rows.append("| %s | %s | %s | %s | %s | %s%s |" % (name, m.get("property"), ", ".join(x.replace("menelaus/", "") for x in m.get("files", [])),
                                                    "yes" if m.get("confirmed", {}).get("ok") else "NO", ", ".join(caught) or "-", ", ".join(missed) or "-",
                                                    (" (machinery failure: %s)" % ", ".join(broken)) if broken else ""))
-print("| seed | property | file changed | confirmed (suite passes, demo fails/passes) | caught by (quick tier) | run but not caught |")
-print("|---|---|---|---|---|---|")
-print("\n".join(rows))
+import sys
+table = "\n".join(["| seed | property | file changed | confirmed (suite passes, demo fails/passes) | caught by (quick tier) | run but not caught |",
+                   "|---|---|---|---|---|---|"] + rows)
+if "--update-design" in sys.argv:
+    p = os.path.join(VERIF, "DESIGN.md")
+    d = open(p).read()
+    b, e = "<!-- SEEDTABLE:BEGIN -->", "<!-- SEEDTABLE:END -->"
+    d = d[:d.index(b) + len(b)] + "\n" + table + "\n" + d[d.index(e):]
+    open(p, "w").write(d)
+    print("DESIGN.md updated: %d seeds" % len(rows))
+else:
+    print(table)
